@@ -51,8 +51,12 @@ def handle : Handler := fun j => do
     let o ← readWriteObs obs
     let mp := removePath dirs name
     let agree := o.err || o.changed == [] || (match mp with | some p => o.changed == [p] | none => false)
-    pure (verdict agree (judgeRemove written o) (Json.mkObj [("path", Driver.hex (mp.getD []))])
-      [if written == [] then "remove-missing" else "remove-existing"])
+    let which := match j.getObjVal? "which" with | .ok (.str w) => w | _ => "remove"
+    -- "rewrite": the same Spec written again under the same name after its removal — the same file
+    -- appears again (the judge is the same equation: what changed = what the first write created)
+    let judge := (judgeRemove written o).map (fun m => if which == "rewrite" then "rewrite-after-remove-" ++ m else m)
+    pure (verdict agree judge (Json.mkObj [("path", Driver.hex (mp.getD []))])
+      [if which == "rewrite" then "rewrite-after-remove" else if written == [] then "remove-missing" else "remove-existing"])
   | _ => throw s!"names: unknown op {op}"
 
 end Driver.Names
